@@ -49,6 +49,15 @@ def with_base(prog, base):
     return p
 
 
+def assemble_same_place(prog, root, sub):
+    """Assemble under ONE directory: the same file names again and again, in one process, for one base after the other (whatever
+    the assembler remembers about a file by its name must not carry a base with it)."""
+    from vlib import asm, refcheck
+    texts = refcheck.render_all(prog)
+    files = refcheck.materialise(prog, texts, sub)
+    return asm.assemble(files, charset=prog.charset, wall=120), texts
+
+
 def gen_pic_program(rnd):
     """Position-independent code: refers to its own labels only through branches, relative operands and label differences."""
     from vlib import apm
@@ -261,8 +270,9 @@ def run_case(case, cnt=None, root=None, coef_set=None):
                 bases += [0o1001, 0o157777, 0o40001]
                 cnt["pic_odd_bases"] = cnt.get("pic_odd_bases", 0) + 1
             cnt["pic_triples_compared"] = cnt.get("pic_triples_compared", 0) + 1
+            sub = tempfile.mkdtemp(prefix="same-", dir=root)
             for b in bases:
-                o, _t = meta.assemble_prog(with_base(prog, b), root)
+                o, _t = assemble_same_place(with_base(prog, b), root, sub)
                 if o.cls == "stall":
                     continue
                 if o.cls != "ok":
@@ -304,9 +314,11 @@ def run_case(case, cnt=None, root=None, coef_set=None):
                 cnt["excluded_failed_at_some_base"] += 1
                 return (out, False) if not own else out
             outs = []
+            sub = tempfile.mkdtemp(prefix="same-", dir=root)
             for b in bases:
-                o, _t = meta.assemble_prog(with_base(prog, b), root)
+                o, _t = assemble_same_place(with_base(prog, b), root, sub)
                 outs.append(o)
+            shutil.rmtree(sub, ignore_errors=True)
             if any(o.cls == "stall" for o in outs):
                 return (out, False) if not own else out
             if any(o.cls != "ok" for o in outs):
